@@ -198,7 +198,14 @@ def main(tier):
             continue
         o = o[1]
         if o["error"]:
-            ck.error(f"{o['tag']}: {o['error'][:600]}")
+            rp = None
+            if "IndexOutOfBounds:" in o["error"] and n_replayed < 6:
+                n_replayed += 1
+                try:
+                    rp = native_compare(o["cells"])
+                except Exception as e:
+                    rp = {"reproduced": True, "reason": f"native construction/integration raised {type(e).__name__}: {str(e)[:100]}"}
+            ck.error(f"{o['tag']}: {o['error'][:600]}", replay=rp)
             continue
         n_struct += 1
         for r in o["refused"]:
